@@ -35,7 +35,8 @@ def canon(x):
         return "Tag(" + str(x) + ")"
     if isinstance(x, BaseException):
         if hasattr(x, "exceptions"):
-            return "EG{" + ",".join(sorted(canon(e) for e in x.exceptions)) + "}"
+            # in the order raised: `.exceptions` is a tuple, its order is part of the outcome
+            return "EG[" + ",".join(canon(e) for e in x.exceptions) + "]"
         f = getattr(x, "field", None)
         return type(x).__name__ + (f"[{f}]" if f else "")
     if isinstance(x, (str, int, bool, float)) or x is None:
@@ -137,6 +138,10 @@ def build(seed):
     add("meta.bad", lambda bad=bad: metadata.Metadata.from_raw(bad), bad)
     doc = "Metadata-Version: 2.1\nName: x\nVersion: 1\nKeywords: a,b\nProject-URL: A, u1\nProject-URL: B, u2\nUnknown: 1\nName: y\n\nbody"
     add("email", lambda: metadata.parse_email(doc))
+    add("email.keys", lambda: [list(d) for d in metadata.parse_email(doc)])
+    add("email.bad", lambda: metadata.Metadata.from_email("Foo: 1\nBar: 2\nBaz: 3\nQux: 4\nName: a\nNAME: b\n"))
+    add("email.bad2", lambda: metadata.Metadata.from_email("Metadata-Version: 2.1\nName: -x\nVersion: v?\nSummary: a\n b\nRequires-Python: >>1\n"
+                                                          "Requires-Dist: ok\nRequires-Dist: not ok\nDynamic: name\n"))
     add("canon.name", lambda: [utils.canonicalize_name(n) for n in ["Foo__Bar", "a.-_b", "X"]])
     add("canon.ver", lambda: [utils.canonicalize_version(v) for v in ["1.0.0", "1!2.0rc1", "junk"]])
     from packaging import licenses
